@@ -125,5 +125,21 @@ int main(int argc, char ** argv)
     if(r) return 3;
     drain(); engineexport_finalize(); return 0;
     }
+  if(sc=="init-state-layout")
+    { // C14: the state handed to the engine must keep every (cell, species) amount in its own slot, whatever the mode:
+      // species 0 lives in cell 1 only, species 1 is absent.  A molecule of species 1, or of species 0 in cell 0,
+      // means the amounts were read in the wrong layout.
+    Sys s=small_system(2,1,1,false,0.0);
+    s.state={0.0,60.0, 0.0,0.0};   // species-major: A(cell0)=0 A(cell1)=60 ; B(cell0)=0 B(cell1)=0
+    int r = grid ? init_grid(s,option,policy,mode,{0.0,0.001},0.002,0.001,seed) : init_graph(s,option,policy,mode,{0.0,0.001},0.002,0.001,seed);
+    if(r) return 3;
+    std::vector<double> & x = grid ? global_grid_algo->mesh_x : global_graph_algo->mesh_x;   // cell-major
+    double a0=x[0], b0=x[1], a1=x[2], b1=x[3];
+    engineexport_finalize();
+    if(b0!=0.0 || b1!=0.0 || a0!=0.0)
+      { fprintf(stderr,"init-state-layout: A=(%g,%g) B=(%g,%g) from A=(0,60) B=(0,0)\n",a0,a1,b0,b1); return 7; }
+    if(a1!=floor(a1) || a1<0) { fprintf(stderr,"init-state-layout: non-integer or negative amount %g\n",a1); return 7; }
+    return 0;
+    }
   return 2;
   }
